@@ -166,6 +166,20 @@ def main():
     except common.DriverError as e:
         print(f"ERROR property={prop} driver: {e}")
         return 2
+    # failing-input search (DESIGN section 6, stage D): a proof obligation, translation or structural correspondence
+    # broke but the routine sample exhibits no input on which the property itself fails -> search wider
+    if (proof_problems or rep.get("structural")) and not rep.get("semantic") and not args.replay and not os.environ.get("VERIF_NO_SEARCH"):
+        ctx2 = dict(ctx, mult=4, rng=random.Random((seed, prop, tier, "search").__repr__()))
+        try:
+            rep2 = mod.run(ctx2)
+            rep2["structural"] = rep.get("structural", []) + rep2.get("structural", [])
+            for kk in ("evaluations", "traces"):
+                rep2[kk] = rep.get(kk, 0) + rep2.get(kk, 0)
+            rep2.setdefault("extra", {})["failing_input_search"] = "ran with 4x cases after a broken obligation/correspondence"
+            rep = rep2
+        except common.DriverError as e:
+            print(f"ERROR property={prop} driver (search): {e}")
+            return 2
     # rep: dict(evaluations, distinct_nontrivial, rule, samples, traces, semantic=[…], structural=[…], extra={…})
     known = load_known()
     semantic = rep.get("semantic", [])
